@@ -198,7 +198,7 @@ func TestC13_StringAPI(t *testing.T) {
 		"generated valid templates (reference interpreter says they render) enriched with multi-line tokens before the fault - text runs with LF/CRLF, string literals containing newlines, multi-line comments, {{ }} blocks and directive argument lists spread over lines by the layout, escapes - plus one single-line faulty construct of a listed kind (unknown identifier, mistyped operand, unknown function/property, division/modulo by zero, illegal character first on its line / mid-line / after whitespace, unexpected tokens) at a certainly executed place (top level, inside @if(true), inside @each over one element, inside @else); the line parsed from the error text must be 1 + the newlines before the construct. Non-trivial: expected line > 1. Distinct by hash of the source.")
 	defer c.Finish()
 	in := interp()
-	runRapid(t, c, 15000, 50000, func(rt *rapid.T) {
+	runRapid(t, c, 15000, 150000, func(rt *rapid.T) {
 		env := genProgEnv().Draw(rt, "data")
 		src, ff, wantLine, place, ml, ok := genFaultyTemplate(rt, in, env)
 		if !ok {
@@ -300,7 +300,7 @@ func TestC13_Trees(t *testing.T) {
 	c := harness.New(t, "C13", "trees",
 		"template directories with a page, a layout and a component; multi-line filler before one fault: run-time faults in the page (top level, inside an @insert block, inside a slot body, inside a component argument) must report the page's absolute path and the construct's line; parse-time faults in the page, in the layout file and in the component file must make NewTemplate fail naming that file's absolute path and line; an @insert naming no reserve and an unknown @component must name the page and the line of that directive. Non-trivial: expected line > 1. Distinct by hash of the tree.")
 	defer c.Finish()
-	runRapid(t, c, 1500, 5000, func(rt *rapid.T) {
+	runRapid(t, c, 1500, 15000, func(rt *rapid.T) {
 		fill := func() string {
 			var b strings.Builder
 			for i := rapid.IntRange(0, 3).Draw(rt, "nfill"); i > 0; i-- {
